@@ -4,7 +4,10 @@ import (
 	"encoding/hex"
 	"fmt"
 	"math/big"
+	"os"
+	"path/filepath"
 	"strings"
+	"sync"
 
 	"github.com/Sifchain/sifnode/cmd/ebrelayer/txs"
 	rtypes "github.com/Sifchain/sifnode/cmd/ebrelayer/types"
@@ -16,6 +19,7 @@ import (
 
 	"sifverif/chain"
 	"sifverif/env"
+	"sifverif/relayrig"
 	"sifverif/report"
 )
 
@@ -551,6 +555,83 @@ func C16(c Ctx) *report.Report {
 			e.NextBlock()
 		}
 	}
+	// (D) batches: the relayer's real scanning loop (EthereumSub.Start -> handleEthereumEvent) run in a child process against
+	// the fake Ethereum node of the C17 rig, several different events in one processed range; every claim of the transaction
+	// that reaches the Sifchain client is matched, by nonce, against the event it stands for
+	{
+		workDir := filepath.Join(os.TempDir(), fmt.Sprintf("sifverif_c16_%d", os.Getpid()))
+		defer os.RemoveAll(workDir)
+		nsc := c.N(2, 6)
+		scs := make([]loopScenario, nsc)
+		for i := range scs {
+			evs := map[int64][]int64{}
+			nonce := int64(1 + rng.Intn(50))
+			first := int64(2 + rng.Intn(20))
+			for b := first; b < first+int64(2+rng.Intn(3)); b++ {
+				for k := 0; k < 1+rng.Intn(3); k++ {
+					evs[b] = append(evs[b], nonce)
+					nonce++
+				}
+			}
+			scs[i] = loopScenario{ID: 900 + i, Events: evs, Steps: []relayrig.Step{{Kind: "head", N: first - 1 + 50, Query: "ok", Submit: "none"}, // sets the cursor just below the events
+				{Kind: "head", N: first + 50 + 6, Query: "ok", Submit: "none"}}}
+		}
+		var wg sync.WaitGroup
+		for i := range scs {
+			wg.Add(1)
+			go func(i int) { defer wg.Done(); runLoopScenario(&scs[i], workDir) }(i)
+		}
+		wg.Wait()
+		for _, sc := range scs {
+			d0 := map[string]interface{}{"batch_events": fmt.Sprint(sc.Events), "trace": sc.Obs.Lines}
+			if sc.Obs.Problem != "" {
+				rep.Violate("C16/batch-rig-problem", "the relayer loop did not run to the end: "+sc.Obs.Problem, d0)
+				continue
+			}
+			want := map[int64]bool{}
+			for _, ns := range sc.Events {
+				for _, n := range ns {
+					want[n] = true
+				}
+			}
+			got := map[int64]int{}
+			for _, l := range sc.Obs.Lines {
+				f := strings.Fields(l)
+				if f[0] != "C" || len(f) != 11 {
+					continue
+				}
+				var chainID, nonce int64
+				var ct int32
+				fmt.Sscan(f[1], &chainID)
+				fmt.Sscan(f[2], &nonce)
+				fmt.Sscan(f[8], &ct)
+				amt, _ := new(big.Int).SetString(f[6], 10)
+				got[nonce]++
+				ef := relayrig.EventOf(nonce)
+				ev := rtypes.EthereumEvent{EthereumChainID: big.NewInt(chainID), Nonce: big.NewInt(nonce), From: ef.Sender, Token: ef.Token, Symbol: ef.Symbol, Value: ef.Amount,
+					To: []byte(ef.Recipient), ClaimType: ethbridgetypes.ClaimType_CLAIM_TYPE_LOCK, BridgeContractAddress: common.HexToAddress(f[9])}
+				valAddr, _ := sdk.ValAddressFromBech32(f[10])
+				cs := c16EvCase{Ev: ev, OK: true, Val: valAddr, Out: ethbridgetypes.EthBridgeClaim{EthereumChainId: chainID, BridgeContractAddress: f[9], Nonce: nonce, Symbol: f[5],
+					TokenContractAddress: f[4], EthereumSender: f[3], CosmosReceiver: f[7], ValidatorAddress: f[10], Amount: sdk.NewIntFromBigInt(amt), ClaimType: ethbridgetypes.ClaimType(ct)}}
+				monEthEvent(rep, cs)
+				dd := cs.desc()
+				dd["batch_events"] = fmt.Sprint(sc.Events)
+				add(cs.enc(len(cases)), dd)
+				rep.Count("batch.claims")
+			}
+			for n := range want {
+				if got[n] != 1 {
+					rep.Violate("C16/batch-claim-count", fmt.Sprintf("the event with nonce %d of a batch of %d events is stood for by %d claims of the submitted transaction", n, len(want), got[n]), d0)
+				}
+			}
+			for n := range got {
+				if !want[n] {
+					rep.Violate("C16/batch-claim-without-event", fmt.Sprintf("a claim with nonce %d although the range holds no such event", n), d0)
+				}
+			}
+			rep.Count("batch.scenarios")
+		}
+	}
 	for i := 0; i*1000 < len(cases); i++ {
 		end := (i + 1) * 1000
 		if end > len(cases) {
@@ -562,6 +643,6 @@ func C16(c Ctx) *report.Report {
 	rep.Evaluations = len(cases)
 	rep.DistinctNontrivial = len(seen)
 	rep.ImplTraces = len(cases)
-	rep.Rule = "one case = one call of the relayer's real translation functions: (A) BurnLockEventToCosmosMsg on attribute lists built from the five required attributes (sender, sequence, Ethereum receiver, symbol, amount) plus the chain's other attributes, shuffled; 1/8 each: one missing, one missing + another duplicated, a duplicate with another value, an invalid value; symbols with the prefix letter at every position and in both cases; (B) EthereumEventToEthBridgeClaim on events with random 160-bit senders, chain ids / nonces around 2^63 and 2^64, amounts up to 2^256-1, symbols of any case, invalid / foreign bech32 recipients; (C) real MsgBurn / MsgLock delivered to the app, the emitted event parsed by the relayer and compared with the message; non-trivial = distinct input"
+	rep.Rule = "one case = one call of the relayer's real translation functions: (A) BurnLockEventToCosmosMsg on attribute lists built from the five required attributes (sender, sequence, Ethereum receiver, symbol, amount) plus the chain's other attributes, shuffled; 1/8 each: one missing, one missing + another duplicated, a duplicate with another value, an invalid value; symbols with the prefix letter at every position and in both cases; (B) EthereumEventToEthBridgeClaim on events with random 160-bit senders, chain ids / nonces around 2^63 and 2^64, amounts up to 2^256-1, symbols of any case, invalid / foreign bech32 recipients; (C) real MsgBurn / MsgLock delivered to the app, the emitted event parsed by the relayer and compared with the message; (D) the real scanning loop in a child process (rig of C17) over ranges holding 2 to 12 different lock events, every claim of the broadcast transaction matched by nonce with its event and pushed through the same model comparison; non-trivial = distinct input"
 	return rep
 }
